@@ -2154,7 +2154,8 @@ def run_c11(ctx):
                         f["equal_penalty_tie"] = equal_penalty_tie(ctx, c1.text, c1.cfg, c2.cfg)
                 if o2.count(b"\n") > o1.count(b"\n"):
                     f = ctx.fail("wider_more_lines", c2, "wrap_column=%d gives %d lines, wrap_column=%d gives %d" % (w2, o2.count(b"\n"), w1, o1.count(b"\n")),
-                             observed=o2.hex()[:2000], expected=o1.hex()[:2000], narrow_overflows=bool(maxlen(o1) > w1), wide_overflows=bool(maxlen(o2) > w2), narrow_expensive_break=expensive_break_in(o1))
+                             observed=o2.hex()[:2000], expected=o1.hex()[:2000], narrow_overflows=bool(maxlen(o1) > w1), wide_overflows=bool(maxlen(o2) > w2), narrow_expensive_break=expensive_break_in(o1),
+                             nonblank_lines_narrow=sum(1 for l in o1.split(b"\n") if l.strip()), nonblank_lines_wide=sum(1 for l in o2.split(b"\n") if l.strip()))
                     if "'''" in (c2.text if isinstance(c2.text, str) else ""):
                         f["ml_families"] = ml_string_families(ctx, c2.text, c2.cfg)
                 if maxlen(o1) <= w1 and maxlen(o2) > w2:
